@@ -307,7 +307,11 @@ def replay_real(case) -> dict:
     import dask
     from acryo.alignment import NCCAlignment, PCCAlignment, ZNCCAlignment
 
-    M = dict(ZNCC=ZNCCAlignment, NCC=NCCAlignment, PCC=PCCAlignment)[case["model"]]
+    from acryo.alignment import FSCAlignment
+
+    if case["part"] == "mock":
+        return replay_mock(case)
+    M = dict(ZNCC=ZNCCAlignment, NCC=NCCAlignment, PCC=PCCAlignment, FSC=FSCAlignment)[case["model"]]
     n = case["n"]
     dt = case.get("dtype", "float32")
     loader0, tomo = _loader(n, dtype=dt)
@@ -367,6 +371,82 @@ def replay_real(case) -> dict:
     return dict(failures=fails)
 
 
+# process-global random streams are shared state of the tasks: every legacy numpy.random call is made a point at which the
+# calling thread gives the others a turn (the real counterpart of a TaskOrder step boundary).  Code that draws from private
+# generators never reaches one of these points.
+_GLOBAL_RNG_CALLS = ("seed", "normal", "standard_normal", "random", "random_sample", "rand", "randn", "uniform", "poisson", "randint", "choice", "shuffle", "permutation")
+
+
+class _YieldAtGlobalRng:
+    def __enter__(self):
+        import time
+
+        self.saved = {}
+        for name in _GLOBAL_RNG_CALLS:
+            f = getattr(np.random, name, None)
+            if f is None:
+                continue
+            self.saved[name] = f
+
+            def wrapped(*a, _f=f, **k):
+                out = _f(*a, **k)
+                time.sleep(0.01)
+                return out
+
+            setattr(np.random, name, wrapped)
+        return self
+
+    def __exit__(self, *exc):
+        for name, f in self.saved.items():
+            setattr(np.random, name, f)
+
+
+def replay_mock(case) -> dict:
+    """Simulated sub-volumes (MockLoader, projection noise): the per-molecule noise must not depend on which task ran when."""
+    import dask
+    from acryo import Molecules
+    from acryo.loader import MockLoader
+    from scipy.spatial.transform import Rotation
+
+    rng = np.random.default_rng(4)
+    tmpl = np.zeros((9, 9, 9), np.float32)
+    tmpl[2:7, 3:6, 3:7] = rng.normal(size=(5, 3, 4)) + 2
+    n = case["n"]
+    rot = Rotation.from_euler("zyx", [[7 * i, -3 * i, 2 * i] for i in range(n)], degrees=True)
+    mole = Molecules(np.zeros((n, 3), np.float32), rot)
+
+    def ops(ld):
+        return dict(asnumpy=lambda: ld.asnumpy(), average=lambda: ld.average(), apply=lambda: ld.apply(np.std)["std"].to_numpy())
+
+    kwl = dict(noise=case["noise"], degrees=np.linspace(-60, 60, 7), order=1)
+    with dask.config.set(scheduler="synchronous"):
+        ref = {k: np.asarray(f()) for k, f in ops(MockLoader(tmpl, mole, **kwl)).items()}
+        one = np.stack([MockLoader(tmpl, mole, **kwl).asnumpy()[i] for i in range(n)])
+    fails = []
+    desc = dict(part="mock", n=n, noise=case["noise"], scheduler=case["scheduler"], workers=case.get("workers"))
+    if not np.array_equal(one, ref["asnumpy"]):
+        fails.append(dict(desc, clause="SimulationRepeatable"))
+    old = sys.getswitchinterval()
+    sys.setswitchinterval(1e-6)
+    try:
+        kw = dict(scheduler=case["scheduler"])
+        if case.get("workers"):
+            kw["num_workers"] = case["workers"]
+        for r in range(case.get("repeat", 1)):
+            with dask.config.set(**kw), _YieldAtGlobalRng():
+                for k, f in ops(MockLoader(tmpl, mole, **kwl)).items():
+                    try:
+                        v = np.asarray(f())
+                    except Exception as e:  # noqa: BLE001
+                        fails.append(dict(desc, clause="NoSpuriousError", op=k, error=type(e).__name__ + ": " + str(e)[:80]))
+                        continue
+                    if v.shape != ref[k].shape or not np.array_equal(v, ref[k]):
+                        fails.append(dict(desc, clause="SchedulerIndependent", op="mock_" + k, maxdiff=float(np.max(np.abs(v - ref[k]))) if v.shape == ref[k].shape else None))
+    finally:
+        sys.setswitchinterval(old)
+    return dict(failures=fails)
+
+
 def replay(case) -> dict:
     p = case.get("part")
     if p == "schedule":
@@ -384,6 +464,12 @@ def run(rep: engine.Report, tier: str, seed: int):
         scheds += r.emitted
     rep.add_tlc(engine.tlc("Sched", "MC_C10_fixed3", timeout=600))
     orders = rep.add_tlc(engine.tlc("TaskOrder", "MC_C10_order", workers=1)).emitted
+    # random streams of concurrent tasks: private generators hold, one re-seeded global stream must be rejected
+    rep.add_tlc(engine.tlc("TaskStream", "MC_C10_stream_private"))
+    hz = engine.tlc("TaskStream", "MC_C10_stream_shared", expect_ok=False)
+    if hz.violated != "EachTaskDrawsItsOwnNoise":
+        raise engine.MachineryError("TaskStream.tla: the shared-stream design was not rejected by TLC (vacuous invariant?)")
+    rep.notes.append("TaskStream.tla: shared re-seeded global stream rejected by TLC (EachTaskDrawsItsOwnNoise violated), as it must be")
     if not scheds or not orders:
         raise engine.MachineryError("C10: no schedules emitted")
     cases = []
@@ -400,6 +486,13 @@ def run(rep: engine.Report, tier: str, seed: int):
             cases.append(dict(part="chunks", model=model, n=5, chunks=[13, 13, 20], dtype=dt))
             cases.append(dict(part="chunks", model=model, n=5, chunks=[26, 26, 82], dtype=dt))
         cases.append(dict(part="shapes", model=model, n=2, limits=[1.0, 1.5, 0.4, (1.2, 2.0, 0.5)]))
+    # declared shapes where the models differ in how they turn max_shifts into a search window: FSC (whole pixels, rounded up),
+    # PCC (clipped to the box), limits at and beyond half the 7-voxel box
+    for model in ("FSC", "PCC", "ZNCC"):
+        cases.append(dict(part="shapes", model=model, n=2, limits=[0.6, 2.5, 4.0, (3.6, 1.2, 5.0)]))
+    for sch, wk in (("synchronous", None), ("threads", 2), ("threads", 4), ("threads", 16)):
+        for noise in (0.0, 0.5):
+            cases.append(dict(part="mock", n=6, noise=noise, scheduler=sch, workers=wk, repeat=1 if quick else 3))
     results = engine.parallel_replay("harness.props.c10", "replay", cases, sync_dask=False, procs=8)
     engine.collect(rep, cases, results, key=lambda c: {k: v for k, v in c.items() if k != "_i"})
     rep.traces_validated = len(scheds) + len(orders)
@@ -410,7 +503,9 @@ def run(rep: engine.Report, tier: str, seed: int):
         "each schedule is replayed deterministically on real threads calling model.align (cache dict operations as yield points) and each "
         "order is enforced on a real loader.apply by gating the per-molecule function; plus synchronous / threaded(1,2,4,16 workers, 1 us "
         "switch interval) schedulers, 4 tomogram chunkings vs numpy, for asnumpy/average/apply/align/score/landscape compared bit for bit "
-        "with the synchronous run, and declared vs computed shapes of construct_dask / construct_landscape (fractional limits, upsample 1-3, rotations)"
+        "with the synchronous run, and declared vs computed shapes of construct_dask / construct_landscape (ZNCC/NCC/PCC/FSC, fractional limits "
+        "up to beyond half the box, upsample 1-3, rotations); MockLoader (projection noise 0 / 0.5) under the same schedulers with every legacy "
+        "numpy.random call turned into a thread switch point (TaskStream.tla: private streams hold, a shared re-seeded stream is rejected)"
     )
     rep.assumptions += ["yield points are the primitive dict operations of the template cache; other shared state (lru_caches, default backend) is exercised by the real threaded runs only"]
 
